@@ -247,6 +247,18 @@ theorem txt_bytes : ∀ {r : Bytes}, Txt r → ∀ c ∈ r, isWordByteB c = true
         · have := List.all_eq_true.mp hall2 c h
           exact Or.inl (by simp [isWordByteB, this])
     · exact txt_bytes hr c h
+  | _, .dotted (w := w) hw _ hr, c, hc => by
+    rcases List.mem_append.mp hc with h | h
+    · rcases (dotted_bytes hw).1 c h with h' | h'
+      · exact Or.inl h'
+      · exact Or.inr (Or.inr (Or.inr h'))
+    · exact txt_bytes hr c h
+  | _, .dottedAt (w := w) hw hr, c, hc => by
+    rcases List.mem_append.mp hc with h | h
+    · rcases (dotted_bytes hw).1 c h with h' | h'
+      · exact Or.inl h'
+      · exact Or.inr (Or.inr (Or.inr h'))
+    · exact txt_bytes hr c h
   | _, .var (vw := vw) hv _ hr, c, hc => by
     rcases List.mem_cons.mp hc with rfl | h
     · exact Or.inr (Or.inr (Or.inl rfl))
